@@ -150,13 +150,13 @@ func (m c12Mutant) apply(src []byte, msgs []gobMsg) []byte {
 // ---- one shape
 
 type c12Runner[V comparable] struct {
-	r      *Run
-	shape  c12Shape
-	stream []byte
-	msgs   []gobMsg
-	saved  map[int]c12Saved[V]
-	meta   gobMsg // the message holding the metadata block (first value message)
-	lastF  *os.File
+	r                                  *Run
+	shape                              c12Shape
+	stream                             []byte
+	msgs                               []gobMsg
+	saved                              map[int]c12Saved[V]
+	meta                               gobMsg // the message holding the metadata block (first value message)
+	lastF                              *os.File
 	accepted, rejected, reachedEntries int64
 }
 
